@@ -323,7 +323,7 @@ pub fn tape_checks(ctx: &Ctx) -> Vec<(&'static str, Box<CheckFn<'_>>)> {
 		(
 			"entry-points",
 			Box::new(move |g: &mut Gen, stats: &mut Stats| {
-				let e = *g.pick(&entries);
+				let e = pick_entry(g, &entries);
 				let mut cfg = GenCfg { allow_skipped_variants: true, ..GenCfg::default() };
 				let v = gen_val(&e.ty, g, &mut cfg);
 				check_entry_points(e, &v, stats)
